@@ -39,6 +39,7 @@ int __real_pthread_key_delete (pthread_key_t);
 int __real_pthread_setspecific (pthread_key_t, const void *);
 void *__real_pthread_getspecific (pthread_key_t);
 pboolean __real_p_atomic_pointer_compare_and_exchange (volatile void *, ppointer, ppointer);
+extern void p_uthread_shutdown (void);          /* puthread.c (called by p_libsys_shutdown) */
 
 static FILE *out;
 #define DIE(...) do { fprintf (stderr, "uthread harness: " __VA_ARGS__); fprintf (stderr, "\n"); _exit (3); } while (0)
@@ -49,7 +50,7 @@ static void swait (sem_t *s) { while (sem_wait (s) != 0) if (errno != EINTR) DIE
 #define MAXB 8192
 typedef struct { void *p; int tag; int id; } Blk;      /* tag 0 other, 'H' handle, 'K' key wrapper */
 static Blk blks[MAXB];
-static int nblk, baseline;
+static int nblk, baseline, shut_comp;      /* shut_comp: init-time blocks that shutdown releases (key wrapper, spinlock) */
 static pthread_mutex_t amx = PTHREAD_MUTEX_INITIALIZER;
 static int freedH[256], nfreedH;
 
@@ -330,7 +331,7 @@ static void answer (const char *res, const char *status, int show_native) {
 	for (int i = 0; i < nf; i++) fprintf (out, "%s%d", i ? "," : "", fr[i]);
 	fprintf (out, " D=");
 	for (int i = 0; i < ndlog; i++) fprintf (out, "%s%d:%d:%lu", i ? ";" : "", dlog[i].t, dlog[i].k, dlog[i].v);
-	fprintf (out, " ob=%d N=", other - baseline);
+	fprintf (out, " ob=%d N=", other - baseline + shut_comp);
 	if (!show_native) fprintf (out, "~");
 	else {
 		int first = 1;
@@ -369,6 +370,7 @@ static void run_case (char **lines, int n) {
 		nw = sscanf (lines[li], "%31s %31s %31s %31s %31s %31s %31s", w[0], w[1], w[2], w[3], w[4], w[5], w[6]);
 		if (nw < 1) continue;
 		begin_op ();
+		if (shut_comp) { bad (); continue; }            /* nothing of the thread API may be used after shutdown */
 		Op o; memset (&o, 0, sizeof o);
 		if (!strcmp (w[0], "spawn") && nw == 1) {
 			int id = new_slot (1);
@@ -393,6 +395,16 @@ static void run_case (char **lines, int n) {
 			swait (&slots[t1].done); swait (&slots[t2].done);
 			kpub[k] = 1;
 			answer ("-", "", 0);
+			continue;
+		}
+		if (nw == 2 && !strcmp (w[1], "shutdown")) {
+			int pend = 0;
+			for (int t = 1; t < nextT; t++) if (slots[t].pending) pend = 1;
+			if (strcmp (w[0], "0") || pend) { bad (); continue; }
+			cur_k = 0;
+			p_uthread_shutdown ();                  /* unref of the caller's handle, local_free of the library key, spinlock */
+			shut_comp = 2;
+			answer ("-", "", 1);
 			continue;
 		}
 		char *endp;
